@@ -52,6 +52,17 @@ def generate(rnd, tier, index=0):
     # arm changes also with an explicit no_nhood_prob_of_arm list: a later empty-neighbourhood predict raises for list-fed
     # primary and replica alike (caller inconsistency, no claim), but the caller's list must still not be touched
     ops = gen.gen_history(rnd, cfg, spare, d, "exact", rnd.randint(4, 12), warm=True, max_rows=10)
+    if cfg["np"] and cfg["np"][0] == "TreeBandit" and len(cfg["arms"]) > 2 and rnd.random() < 0.3:
+        # only ONE arm is ever trained and it is removed later: queries then meet a bandit without any fitted tree
+        x = cfg["arms"][rnd.randrange(len(cfg["arms"]))]
+        ops = [{"op": "fit", "rows": gen.gen_rows(rnd, [x], rnd.randint(1, 6), d, "exact", "binary", True)},
+               {"op": "expect", "Q": gen.gen_Q(rnd, rnd.randint(1, 3), d, "exact")},
+               {"op": "remove_arm", "arm": x},
+               {"op": "expect", "Q": gen.gen_Q(rnd, rnd.randint(1, 3), d, "exact")},
+               {"op": "predict", "Q": gen.gen_Q(rnd, 1, d, "exact")},
+               {"op": "add_arm", "arm": x},
+               {"op": "partial_fit", "rows": gen.gen_rows(rnd, cfg["arms"], rnd.randint(1, 6), d, "exact", "binary", True)},
+               {"op": "expect", "Q": gen.gen_Q(rnd, rnd.randint(1, 3), d, "exact")}]
     for op in ops:
         if op["op"] in ("fit", "partial_fit", "predict", "expect"):
             choices = list(CONTAINERS)
